@@ -175,7 +175,16 @@ def _time_forms_for(t):
             finer += ["hhmmss_basic", "hhmmss_ext"]
         if _fits(tod):
             finer += ["hhmmss_fc_ext", "hhmmss_fp_basic"]
-    return [(n, tf[n], True) for n in own] + [(n, tf[n], False) for n in finer]
+    # decimal forms on a *coarser* unit than the point's own can still carry the value when it has few enough decimals
+    # there (06:30:00 is 6,5 hours; 06:30:30 is 30,5 minutes past six)
+    coarser = []
+    if t[1] != 24:
+        if t[0] in ("hms", "hmsf", "hmf") and _fits(tod / 3600) and tod % 3600 != 0:
+            coarser += ["hh_fc", "hh_fp"]
+        if t[0] in ("hms", "hmsf") and _fits(tod / 60) and tod % 60 != 0:
+            coarser += ["hhmm_fc_ext", "hhmm_fp_basic"]
+    return ([(n, tf[n], True) for n in own] + [(n, tf[n], False) for n in finer] +
+            [(n, tf[n], "coarser") for n in coarser])
 
 
 def check_dumps(ctx, kind, c, pdesc):
@@ -197,6 +206,8 @@ def check_dumps(ctx, kind, c, pdesc):
                     continue
                 if zname == "Z" and pdesc["t"][0] == "hf" and off % 15 != 0:
                     continue   # re-zoning a decimal-hour value by a non-quarter-hour offset leaves the exact domain
+                if zname == "Z" and same_unit == "coarser" and off % 15 != 0:
+                    continue   # (after such a conversion the value no longer has few decimals in the coarser unit)
                 if zname == "Z" and off != 0 and not _binary(pdesc["t"]):
                     continue   # (the same for any decimal that is not a binary fraction)
                 if zname == "Z" and tname in ("hhmm_basic", "hhmm_ext", "hh") and (
@@ -205,7 +216,13 @@ def check_dumps(ctx, kind, c, pdesc):
                 fmt = mtext.notation(dtoks + [mtext.lit("T")] + ttoks + ztoks)
                 case = lambda: {"kind": "dump", "mode": kind, "p": pdesc, "fmt": fmt}  # noqa: E731
                 sig = {"dform": dname, "tform": tname, "zform": zname, "h24": pdesc["t"][1] == 24}
-                if not same_unit:
+                if same_unit == "coarser":
+                    sig["decimal_on_coarser_unit_than_point"] = pdesc["t"][0]
+                    unit_s = 3600 if tname.startswith("hh_") else 60
+                    # exact only when both the point's own decimal and the one to be printed are binary fractions
+                    sig["binary_fraction"] = (_binary(pdesc["t"]) and (_decimal_tod(pdesc["t"]) / unit_s * 2 ** 20) % 1 == 0 and
+                                              not (unit_s == 3600 and off % 15 != 0))   # (read back: decimal hours in that offset)
+                elif not same_unit:
                     sig["finer_than_point"] = pdesc["t"][0]
                     sig["binary_fraction"] = _binary(pdesc["t"])
                 ctx.transitions += 2
